@@ -191,6 +191,11 @@ func C07CliSortBad(name, a, bad, c string) {
 	vv.Assert(code == 1, "C07: CLI sort with an invalid version does not exit with status 1")
 	vv.Assert(containsStr(out, bad), "C07: CLI sort error does not name the invalid version")
 	vv.Assert(!containsStr(out, strconv.Quote(a)), "C07: CLI sort prints a partial result next to the error")
+	// the diagnostic blames the invalid argument, not a valid one (only decisive for the quoting
+	// styles '...' and "..."; any other style passes)
+	vv.Assert(!containsStr(out, "'"+a+"'"), "C07: CLI sort error names a valid version as the invalid one")
+	vv.Assert(!containsStr(out, "'"+c+"'"), "C07: CLI sort error names a valid version as the invalid one")
+	vv.Assert(!containsStr(out, strconv.Quote(c)), "C07: CLI sort prints a partial result next to the error")
 }
 
 func isPermOutput(out, qa, qb, qc string) bool {
